@@ -469,4 +469,11 @@ def c04_h(ctx: Ctx):
     return out
 
 
-RULES = [c04_a, c04_b, c04_c, c04_d, c04_e, c04_f, c04_g, c04_h]
+@rule("C04-i")
+def c04_i(ctx: Ctx):
+    """Whole-module cross-checks: no exchanged positional arguments in resolved internal calls; diagnostics (logging / warnings) do no work."""
+    from .lints import swapped_arguments, pure_logging
+    return swapped_arguments(ctx, "C04-i", ['signac.job', 'signac.project']) + pure_logging(ctx, "C04-i", ['signac.job'])
+
+
+RULES = [c04_a, c04_b, c04_c, c04_d, c04_e, c04_f, c04_g, c04_h, c04_i]
